@@ -1125,6 +1125,49 @@ theorem closeFile_good {s : St} {f : Nat} (hg : Good none none s) (hf : f < s.fi
       | raised c => exact ⟨⟨(by simp), (fun h => by cases h), fun c _ => q2, (by rw [q3, o4, hlen0]), (by rw [q4, o5]; rfl)⟩, (fun _ h => by cases h)⟩
 
 
+/-! ## answers overtaking each other -/
+
+theorem deliverFirst_perm (w : List Slot) (k : Nat) : (deliverFirst w k).Perm w := by
+  unfold deliverFirst
+  cases hk : w[k]? with
+  | none => exact List.Perm.refl _
+  | some sl =>
+    simp only
+    split
+    · have hlt : k < w.length := by
+        rcases Nat.lt_or_ge k w.length with h | h
+        · exact h
+        · rw [List.getElem?_eq_none h] at hk; cases hk
+      have hsplit : w = w.take k ++ sl :: w.drop (k + 1) := by
+        have hget : w[k] = sl := by
+          have := List.getElem?_eq_getElem hlt
+          rw [this] at hk
+          exact Option.some.inj hk
+        conv => lhs; rw [← List.take_append_drop k w]
+        rw [List.drop_eq_getElem_cons hlt, hget]
+      conv => rhs; rw [hsplit]
+      exact List.perm_middle.symm
+    · exact List.Perm.refl _
+
+theorem good_deliver {wf ex : Option Nat} {s : St} (k : Nat) (hg : Good wf ex s) :
+    Good wf ex { s with wire := deliverFirst s.wire k } := by
+  have hp := deliverFirst_perm s.wire k
+  have hmem : ∀ x, x ∈ deliverFirst s.wire k → x ∈ s.wire := fun x hx => hp.mem_iff.mp hx
+  refine ⟨?_, ?_, hg.ekeys, hg.elt, ?_, ?_, ?_, ?_, ?_⟩
+  · show (nums (deliverFirst s.wire k)).Nodup
+    exact (List.Perm.nodup_iff (hp.map _)).mpr hg.nd
+  · intro x hx; exact hg.lt x (hmem x hx)
+  · intro e he
+    show e.1 ∈ nums (deliverFirst s.wire k)
+    exact (hp.map _).mem_iff.mpr (hg.e2w e he)
+  · intro x hx; exact hg.w2e x (hmem x hx)
+  · intro x hx; exact hg.own x (hmem x hx)
+  · intro f hex hpz
+    rcases hg.bad f hex hpz with ⟨x, hx, hb⟩ | h
+    · exact Or.inl ⟨x, hp.mem_iff.mpr hx, hb⟩
+    · exact Or.inr h
+  · intro x hx f hxo; exact hg.rq x (hmem x hx) f hxo
+
 /-! ## whole programs -/
 
 def OpOK (nfiles : Nat) : Op → Prop
@@ -1166,6 +1209,9 @@ theorem stepOp_good {s : St} {op : Op} (hg : Good none none s) (hop : OpOK s.fil
     simp only [stepOp]
     obtain ⟨a, b, c⟩ := good_serveMany k hg
     exact ⟨by simp, a, (by rw [b]), c⟩
+  | deliver k =>
+    simp only [stepOp]
+    exact ⟨by simp, good_deliver k hg, by simp⟩
 
 theorem runOps_good : ∀ (ops : List Op) (s : St), Good none none s → (∀ op ∈ ops, OpOK s.files.length op) →
     (∀ r ∈ (runOps s ops).2, r ≠ .hang) ∧ Good none none (runOps s ops).1 ∧
